@@ -164,6 +164,25 @@ class Analyzer:
             self.init(ci)
             self.pool_pure(ci)
             self.pop_own(ci)
+        # the base class's own pooled callables: what a pool worker runs must not write optimizer state either
+        base_ci = self.src.classes.get("pyvolutionary.abstract.OptimizationAbstract")
+        if base_ci is not None:
+            for fname in ("_init_agent", "_init_agent_seeded", "_greedy_select_agent", "_fcn"):
+                f = base_ci.methods.get(fname)
+                if f is None:
+                    continue
+                bad = []
+                for node in ast.walk(f):
+                    for tgt, kind in _store_targets(node):
+                        p_ = _root(tgt)
+                        if p_[:1] == ["self"] and len(p_) >= 2:
+                            bad.append(ast.unparse(tgt))
+                    if isinstance(node, ast.Call) and isinstance(node.func, ast.Attribute) and node.func.attr in MUTATORS and \
+                            _root(node.func.value)[:1] == ["self"]:
+                        bad.append(ast.unparse(node)[:50])
+                self.add("POOL-pure", "kernel", f"OptimizationAbstract.{fname}", f, f"callable run by pool workers: {fname}", not bad,
+                         "writes nothing of the optimizer" if not bad else
+                         "writes optimizer state (" + ", ".join(bad[:3]) + "): racy under a thread pool, lost in a process pool", base_ci.file)
         # kernel modules: evaluation chain and randomness
         for modname in ("pyvolutionary.helpers", "pyvolutionary.models", "pyvolutionary.abstract", "pyvolutionary.utils"):
             mi = self.src.modules.get(modname)
